@@ -294,10 +294,8 @@ class EAS(TransductiveModel):
         """Called when the train ends."""
         save_path = self.hparams.save_path
         # concatenate solutions and rewards
-        self.instance_solutions = pad_sequence(
-            self.instance_solutions, batch_first=True, padding_value=0
-        ).squeeze()
-        self.instance_rewards = torch.cat(self.instance_rewards, dim=0).squeeze()
+        self.instance_solutions = torch.cat(self.instance_solutions, dim=0)
+        self.instance_rewards = torch.cat(self.instance_rewards, dim=0)
         if save_path is not None:
             log.info(f"Saving solutions and rewards to {save_path}...")
             torch.save(
